@@ -1,6 +1,6 @@
 """C07 — parameter values cannot alter the request URI structure and decode back exactly."""
 import json, os
-from ..facts import ty_adt, tystr, walk_ty, place_local, place_proj, op_place
+from ..facts import ty_adt, tystr, walk_ty, place_local, place_proj, op_place, strip_refs
 from ..cfg import CFG, Tracer, thaw
 from .. import dt, instance, core
 from . import c06
@@ -390,6 +390,21 @@ def run(ctx):
                                 res_ = t2["call"].get("resolved") or {}
                                 if res_.get("id") == clo.id and len(t2["args"]) == 2 and from_parameter(gb, t2["args"][1]):
                                     keyed += 1
+        if not keyed:
+            # the keyed access may sit in a closure mapped over the (possibly pre-grouped) path pieces: the key is the payload of
+            # a `Parameter` variant of whatever the closure is given
+            cgen = F.crate(cn)
+            for x in [gb] + cgen.closures_of(gb):
+                for bb, t in x.calls():
+                    if t["call"]["name"] in ("index", "get", "get_key_value", "remove") and len(t["args"]) == 2 and op_place(t["args"][0]) is not None \
+                            and any(m_ in tystr(strip_refs(x.local_ty(place_local(op_place(t["args"][0]))) or {})) or m_ in str(Tracer(x, through_calls=True).sources(t["args"][0])) for m_ in ("HashMap", "BTreeMap")):
+                        for s_ in Tracer(x, through_agg=True, transparent=dt.value_tracer(x).transparent).sources(t["args"][1]):
+                            chain = []
+                            while s_[0] == "field":
+                                chain.append(s_[2])
+                                s_ = s_[1]
+                            if "Parameter" in str(chain):
+                                keyed += 1
         ctx.check(keyed >= 1, "R7.7", gb.loc(), f"{fn['name']}|path-parameter-by-name",
                   f"{fn['name']}: no lookup of the argument by the path template's parameter name (a map indexed with the `Parameter(name)` payload of the component being written): path arguments bound by position end up in the wrong segments when declared in another order",
                   instance=f"{fn['name']}: Parameter(name) -> args_by_name[name]")
